@@ -219,7 +219,9 @@ impl Dictionary for MutableDictionary {
         let normalized = word.normalized();
 
         if let Some(found) = self.word_map.get_with_chars(normalized.as_ref()) {
-            if found.canonical_spelling.as_ref() == normalized.as_ref() {
+            // The stored spelling may itself hold a typographic apostrophe (a word the user
+            // added as it stood in their text): compare like with like.
+            if found.canonical_spelling.normalized().as_ref() == normalized.as_ref() {
                 return true;
             }
         }
